@@ -465,6 +465,12 @@ func judge(out *reg.Out, q *tn.Query, loc, rem []int, p Params, base, pr *runOut
 		out.Fail(cls("baseline-hang"), "uninterrupted exchange: %s", base.hang)
 		return
 	}
+	if len(base.res.Hard) > 0 && ref[0].Avail {
+		// the comparison is meaningless if the uninterrupted exchange with a cooperative responder is
+		// itself rejected by the requestor's verification (outside C02's known input classes)
+		out.Fail(cls("baseline-rejected"), "uninterrupted exchange failed verification: %s", strings.Join(base.res.Hard, " "))
+		return
+	}
 	// ---- requestor-side classes decided from the paused run's own event log
 	stale, busy := staleAfterReopen(pr), resumeWhileActive(pr)
 	// precedence: what the paused run's own event log shows (a stale message reached the reopened
